@@ -990,6 +990,39 @@ def specialise_range_arms(root, ids):
     return map_tree(root, fold)
 
 
+def fold_constant_ifs(root):
+    """`if false { A } else { B }` is B, `if true { A } else { B }` is A, `if false { A }` is nothing (after helpers returning a
+    constant were inlined; `cfg!(..)` is such a literal too)."""
+    def lit_bool(c):
+        c = hir.simp(c)
+        while isinstance(c, dict) and c.get("k") == "un" and c.get("op") == "Not" and "callee" not in c:
+            inner = lit_bool(c["e"])
+            return None if inner is None else (not inner)
+        if isinstance(c, dict) and c.get("k") == "lit" and c.get("t") == "bool":
+            return bool(c["v"])
+        if isinstance(c, dict) and c.get("k") == "block" and not c.get("stmts") and "expr" in c and "label" not in c:
+            return lit_bool(c["expr"])
+        return None
+
+    def fn(n):
+        if n.get("k") != "if":
+            return n
+        v = lit_bool(n["c"])
+        if v is None:
+            return n
+        if v:
+            return n["t"]
+        if "e" in n:
+            return n["e"]
+        return {"k": "tuple", "es": [], "ty": "()", "ln": n.get("ln"), "norm": "dead-branch"}
+
+    def sweep(n):
+        if n.get("k") == "block" and any(isinstance(x, dict) and hir.simp(x).get("norm") == "dead-branch" for x in n.get("stmts", [])):
+            return dict(n, stmts=[x for x in n["stmts"] if not (isinstance(x, dict) and hir.simp(x).get("norm") == "dead-branch")])
+        return n
+    return map_tree(map_tree(root, fn), sweep)
+
+
 def split_tuple_lets(root):
     """`let (a, b) = (x, y);` with pure x, y -> `let a = x; let b = y;` (locals are id-resolved, so a swap stays a swap)."""
     def fn(n):
@@ -1439,6 +1472,7 @@ def normalise_crate(name, crate):
                 b["inlined_from"] = sorted({x["inlined"] for x in all_nodes(h2) if x.get("inlined")} |
                                            {x["inl"] for x in all_nodes(h2) if x.get("inl")})
             h = h2
+        h = fold_constant_ifs(h)
         h = map_tree(h, _or_split)
         h = map_tree(h, _mem_replace)
         h = split_tuple_lets(h)
